@@ -498,6 +498,17 @@ def r5(ctx):
         ctx.bad(idf.qualname, 'no-raise', 'identify_format may return None silently', idf.loc())
 
 
+def r6(ctx):
+    """reading has no memory: the functions on the read/write/identify paths (registry, connect, io) write no
+    module- or class-level object (rule C13.R2 restricted to them) — a remembered format or template would make a later
+    read of the same path depend on what was there before."""
+    from .c09 import _SubCtx
+    from .c13 import r2 as c13r2
+    sub = _SubCtx(ctx, lambda c: any(k in c for k in ('registry', 'connect', 'regions/io/', 'Registry')))
+    c13r2(sub)
+    sub.flush('no module/class-level state is written on the read/write/identify paths')
+
+
 RULES = [
     RuleDef('R1', 'lexists guard dominates every destination-creating call', r1, 3),
     RuleDef('R2', 'serialisation dominates open; no repo code after open', r2, 3),
@@ -505,4 +516,5 @@ RULES = [
     RuleDef('R4', 'identifier extension/signature tables agree with writers', r4, 6),
     RuleDef('R4b', 'identifier semantics (symbolic): write/read/other-method outcomes', r4b, 3),
     RuleDef('R5', 'registry raises IORegistryError for unknown/unidentified formats', r5, 6),
+    RuleDef('R6', 'identification and I/O keep no state between calls (C13.R2 on registry/io)', r6, 1),
 ]
